@@ -45,6 +45,44 @@ pub fn decorate(r: &mut Rng, f: &mut Value, p_num: u64, p_den: u64) {
     }
 }
 
+/// Map columns whose entries / key / value fields do not carry the default names (`entries`, `key`, `value`): Parquet- and
+/// Spark-derived schemas say `key_value`.  Every back end must build an array of the field's own type (seeded c19h: the
+/// builder always called the entries child `entries`, so `to_record_batch` refused what `to_arrow` / `to_marrow` accepted).
+/// The generated values depend on positions only.
+pub fn rename_map_children(r: &mut Rng, f: &mut Value, p_num: u64, p_den: u64) {
+    let t = f["dt"]["t"].as_str().unwrap().to_string();
+    match t.as_str() {
+        "Struct" => {
+            for c in f["dt"]["fields"].as_array_mut().unwrap() {
+                rename_map_children(r, c, p_num, p_den);
+            }
+        }
+        "List" | "LargeList" | "FixedSizeList" => rename_map_children(r, &mut f["dt"]["child"], p_num, p_den),
+        "Map" => {
+            let e = &mut f["dt"]["entries"];
+            if r.chance(p_num, p_den) {
+                e["name"] = json!(*r.pick(&["key_value", "kv", "é"]));
+            }
+            let cs = e["dt"]["fields"].as_array_mut().unwrap();
+            if r.chance(p_num, 2 * p_den) {
+                cs[0]["name"] = json!(*r.pick(&["k", "keys"]));
+            }
+            if r.chance(p_num, 2 * p_den) {
+                cs[1]["name"] = json!(*r.pick(&["v", "values"]));
+            }
+            for c in cs.iter_mut() {
+                rename_map_children(r, c, p_num, p_den);
+            }
+        }
+        "Union" => {
+            for c in f["dt"]["fields"].as_array_mut().unwrap() {
+                rename_map_children(r, &mut c[1], p_num, p_den);
+            }
+        }
+        _ => {}
+    }
+}
+
 /// zero-sized fixed-size types and field-less structs break marrow's arrow / arrow2 conversions (recorded
 /// findings); most schemas are rewritten to avoid them so that the rest of the case is not overshadowed
 pub fn sanitize(f: &mut Value) {
